@@ -100,13 +100,20 @@ pub fn run_app(
         return Ok(0);
     } else if let Call::SubCommand(_, cmd) = &call {
         // Set before creating the Config, which already asks for the calling process
-        // (not required for Call::DeltaDiff)
         utils::process::set_calling_process(
             &cmd.args
                 .iter()
                 .map(|arg| OsStr::to_string_lossy(arg).to_string())
                 .collect::<Vec<_>>(),
         );
+    } else if let (Call::DeltaDiff(..), Some(opt)) = (&call, &opt) {
+        // The command that will be started to compare the two files is known as well.
+        let mut args: Vec<String> = ["git", "diff", "--no-index", "--color"]
+            .iter()
+            .map(|arg| arg.to_string())
+            .collect();
+        args.extend(shell_words::split(opt.diff_args.trim()).unwrap_or_default());
+        utils::process::set_calling_process(&args);
     }
     let opt = opt.unwrap_or_else(|| delta_unreachable("Opt is set"));
 
